@@ -17,7 +17,7 @@ REQUIRED_THEOREMS = [
     "Acn.C16.site_instances", "Acn.C16.wye_power", "Acn.C16.line_current_sq", "Acn.C16.site_power_bound",
     "Acn.C16.site_power_bound_nominal208", "Acn.C16.pod_panel_within_rating", "Acn.C16.generated_sites_power_bound",
     "Acn.C16.site_structure_all_voltages", "Acn.C16.feasible_iff", "Acn.C16.secondary_feasible_iff",
-    "Acn.C16.wye_power_attained", "Acn.C16.balanced_draws_full_allowance", "Acn.C16.office001_bound_attained",
+    "Acn.C16.wye_power_attained", "Acn.C16.balanced_draws_full_allowance", "Acn.C16.office001_bound_attained", "Acn.C16.caltech_bound_attained",
     "Acn.C16.primary_implied",
 ]
 BUDGET = {"quick": 700, "thorough": 12000, "search": 4000}
